@@ -755,6 +755,7 @@ func runC20(c *Ctx) {
 		}
 	}
 	c20RoundE(c, c.W)
+	c20QueueCap(c, c.W)
 }
 
 // c20Dropped: in promoteExecutables / demoteUnexecutables / truncate*, every
@@ -968,5 +969,82 @@ func c20RoundE(c *Ctx, w *World) {
 			ok := mustPassAfter(filter, gates)
 			c.Check("(core.TxPool).demoteUnexecutables#front-gap-test-on-every-path", filter.Pos(), ok, ifelse(ok, "every path from the filter passes the front-gap test", "an iteration can end after the filter without having looked for the transaction with the account's current nonce: a pending list that starts above the account nonce is kept and handed to the block builder"))
 		}
+	}
+}
+
+// c20QueueCap (L13): demotions respect the per-account queue limit.
+func c20QueueCap(c *Ctx, w *World) {
+	c.Rule("C20.L13", "ALWAYS-WITH", "per-account limits are respected at all times: promoteExecutables is the only place that caps an account's queue (list.Cap(AccountQueue)), so every function that DEMOTES — hands transactions it took out of a pending list (results of txList.Filter / Cap / Remove) to enqueueTx — passes, after the last such call, a cap of that account's queue or a request to promote. Otherwise one remote account with 400 pending transactions whose first one is dropped (SetGasPrice, or a head reset that makes it unaffordable) sits with 399 queued transactions against a limit of 256")
+	c.Min(2)
+	enq := w.FuncObj("core", "TxPool", "enqueueTx")
+	n := 0
+	for _, fn := range w.FuncsIn("core") {
+		if fn.Blocks == nil || strings.HasSuffix(w.fileOf(fn.Pos()), "_test.go") {
+			continue
+		}
+		var demotes []ssa.Instruction
+		for _, ci := range callsTo(fn, enq) {
+			args := callArgs(ci)
+			tx := args[len(args)-1]
+			if derivesFrom(tx, func(x ssa.Value) bool {
+				cc, ok := x.(*ssa.Call)
+				if !ok {
+					return false
+				}
+				o := calleeObj(cc)
+				return o != nil && recvName(o) == "txList" && (o.Name() == "Filter" || o.Name() == "Cap" || o.Name() == "Remove")
+			}) {
+				demotes = append(demotes, ci.(ssa.Instruction))
+			}
+		}
+		if len(demotes) == 0 {
+			continue
+		}
+		n++
+		c.sites += len(demotes)
+		c.sawFunc(fname(fn))
+		var gates []ssa.Instruction
+		var scan func(g *ssa.Function, depth int) bool
+		caps := func(ci ssa.CallInstruction) bool {
+			o := calleeObj(ci)
+			if o == nil {
+				return false
+			}
+			if recvName(o) == "txList" && o.Name() == "Cap" {
+				return derivesFrom(callArgs(ci)[0], func(x ssa.Value) bool {
+					f, _ := loadedField(x)
+					return f != nil && f.Name() == "AccountQueue"
+				})
+			}
+			return o.Name() == "promoteExecutables" || o.Name() == "requestPromoteExecutables"
+		}
+		scan = func(g *ssa.Function, depth int) bool {
+			for _, ci := range callInstrs(g) {
+				if caps(ci) {
+					return true
+				}
+				if h := ci.Common().StaticCallee(); h != nil && h.Pkg == g.Pkg && h.Blocks != nil && depth < 1 && scan(h, depth+1) {
+					return true
+				}
+			}
+			return false
+		}
+		for _, ci := range callInstrs(fn) {
+			if caps(ci) {
+				gates = append(gates, ci.(ssa.Instruction))
+			} else if h := ci.Common().StaticCallee(); h != nil && h.Pkg == fn.Pkg && h.Blocks != nil && h.Object() != enq && scan(h, 0) {
+				gates = append(gates, ci.(ssa.Instruction))
+			}
+		}
+		ok := len(gates) > 0
+		for _, d := range demotes {
+			if !mustPassAfter(d, gates) {
+				ok = false
+			}
+		}
+		c.Check(fname(fn)+"#demotion-then-queue-cap", demotes[0].Pos(), ok, ifelse(ok, "every path after a demotion passes a cap of the account's queue", "transactions taken out of pending are put into the account's queue and the function returns without capping the queue at AccountQueue (nor asking for a promotion run, which would): the per-account queue limit is exceeded until some later promotion of that account"))
+	}
+	if n == 0 {
+		c.Undecided("core#demoting-functions", token.NoPos, "no function that hands transactions from a pending list to enqueueTx found (demoteUnexecutables and removeTx are expected)")
 	}
 }
